@@ -34,7 +34,7 @@ def synth(rnd, t, caches, n):
             if vt >= (3, 13) and name in ("LOAD_FAST_LOAD_FAST", "STORE_FAST_LOAD_FAST", "STORE_FAST_STORE_FAST"):
                 arg = (rnd.randrange(0, 6) << 4) | rnd.randrange(0, 6)
         elif k == "free":
-            arg = rnd.randrange(0, 7 if vt >= (3, 11) else 4)
+            arg = rnd.randrange(0, 9 if vt >= (3, 11) else 5)
         else:
             arg = rnd.randrange(0, 6) << (5 if vt >= (3, 13) else 4 if vt >= (3, 12) else 0)
         IG.emit(t, op, arg, code)
@@ -45,13 +45,13 @@ def synth(rnd, t, caches, n):
 
 def describe(case, impl, model):
     return {"component": "Instruction.argval / optype (operand resolution)", "input": case, "impl_observation": impl[:120], "model_observation": model[:600],
-            "observation_format": "[0; n; per table-indexed instruction: offset; kind; value] kind 1 const (1000+i), 2 name ('n'/'v'/'c'/'f' *1000 + index), 5 cmp index, 6 pair, 9 raw; markers: varnames v0-v3, cellvars (v0, c1), freevars (f0)",
+            "observation_format": "[0; n; per table-indexed instruction: offset; kind; value] kind 1 const (1000+i), 2 name ('n'/'v'/'c'/'f' *1000 + index), 5 cmp index, 6 pair, 9 raw; markers: varnames v0-v3, cellvars (v0, c1), freevars (f0, v1)",
             "why": "C03_resolve proves the model resolves as CPython does; the implementation differs from the model on this code"}
 
 
 def run(r):
     r.cov["rule"] = ("theorem: all opcodes x all operands x all tables; correspondence: per opcode table, code built from its const/name/local/free/compare opcodes over marker tables "
-                     "(a parameter that is also a cell, one free variable, out-of-range name indices, LOAD_GLOBAL/LOAD_ATTR/LOAD_SUPER_ATTR flag bits, shifted COMPARE_OP, 3.13 pairs); "
+                     "(a parameter that is also a cell, a free variable that has the name of a local, out-of-range name indices, LOAD_GLOBAL/LOAD_ATTR/LOAD_SUPER_ATTR flag bits, shifted COMPARE_OP, 3.13 pairs); "
                      "the spec is run against the real dis of 3.8-3.13 on the same code; non-trivial = at least 3 resolved operands")
     broken = r.generate("opcodes", "small")
     ok = False if broken else r.build(extra_targets=["Model/InstrObs.vo"])
@@ -119,8 +119,8 @@ def run(r):
         import traceback
         traceback.print_exc()
         r.violation({"correspondence": "could not be run", "error": repr(e)}, found_input=False, name="C03-correspondence.json")
-    # the region C03_resolve's hypothesis leaves out - a free variable that shares its name with a local (3.12+ inlined comprehensions) -
-    # decided by execution against the real dis of 3.12 and 3.13
+    # a free variable that shares its name with a local (3.12+ inlined comprehensions): the case in real compiler output,
+    # against the real dis of 3.12 and 3.13 (defect D45, repaired; the marker tables above hold such a free variable too)
     try:
         for v in ("3.12", "3.13"):
             d = os.path.join(r.wd, "freelocal" + v)
@@ -128,20 +128,20 @@ def run(r):
             pyc = os.path.join(d, "freelocal.pyc")
             rc, out, err = C.run_py(os.path.join(C.VERIF, "tools/harness/oracle_freelocal.py"), host=C.ORACLES[v], stdin=json.dumps({"dir": d, "out": pyc}), impl=False)
             want = json.loads(out.split("@@JSON@@")[1])
-            got = C.run_impl_op("freelocal", [{"file": pyc}], modules=MODS)[0]
+            res = C.run_impl_op("freelocal", [{"file": pyc}], modules=MODS)[0]
             r.case(("freelocal", v), nontrivial=True)
+            got = res.get("rows") if isinstance(res, dict) else None
+            if isinstance(res, dict) and (res.get("rows_via_other") != res.get("rows") or res.get("lines_via_other") != res.get("lines")):
+                r.violation({"component": "Bytecode(a).get_instructions(b)", "version": v, "of_b": {"rows": res.get("rows"), "lines": res.get("lines")},
+                             "via_a": {"rows": res.get("rows_via_other"), "lines": res.get("lines_via_other")},
+                             "why": "get_instructions(x) resolves x's operands and lines with x's own tables; through a Bytecode object made for another code object it answers differently"})
             diff = [(a, b) for a, b in zip(want["rows"], got)] if isinstance(got, list) else None
             bad = [(a, b) for a, b in (diff or []) if a != b]
             if got is None or not isinstance(got, list) or len(got) != len(want["rows"]):
                 r.violation({"component": "operand resolution, free variable named like a local", "version": v, "dis": want, "xdis": got, "why": "the instruction rows differ in number"})
             elif bad:
-                only_free = all(a[1] in ("LOAD_DEREF", "STORE_DEREF", "LOAD_CLOSURE") for a, b in bad)
-                if only_free and r.is_known("D45"):
-                    r.known_finding("D45", "a free variable that shares its name with a local (3.12+ inlined comprehension): LOAD_DEREF resolves to the wrong name - the merged "
-                                    "locals+cells+frees table drops every cell OR FREE name already among the locals, CPython only merges cells")
-                else:
-                    r.violation({"component": "operand resolution, free variable named like a local", "version": v, "differences": bad[:6], "tables": {k: want[k] for k in ("varnames", "cellvars", "freevars")},
-                                 "why": "xdis resolves other names than the producing CPython's dis"})
+                r.violation({"component": "operand resolution, free variable named like a local", "version": v, "differences": bad[:6], "tables": {k: want[k] for k in ("varnames", "cellvars", "freevars")},
+                             "why": "xdis resolves other names than the producing CPython's dis"})
     except SystemExit:
         raise
     except Exception as e:
